@@ -10,7 +10,8 @@ def components():
 
 
 def oracles_():
-    return [oracles.MergeDup(), comps_c14x.DupMatrix(), comps_c14x.MergeKinds()]
+    return [oracles.MergeDup(), comps_c14x.DupMatrix(), comps_c14x.MergeKinds(), comps_c14x.DupFamilies(),
+            comps_c14x.MergeFamilies()]
 
 
 TRUSTED = [
@@ -55,7 +56,16 @@ MANIFEST = {
             "block), context ownership of every node, original unchanged, duplicate intact after editing / freeing the other. "
             "mergekinds: LYD_MERGE_DESTRUCT / DEFAULTS / WITH_FLAGS in all combinations x lyd_merge_tree / _siblings / _module "
             "(callback log, module filter), empty / equal / nested source, empty target; result, LYD_NEW marks, callback calls, "
-            "source afterwards and a second merge are compared with a reference merge of the dumped operands (merge_ref).",
+            "source afterwards and a second merge are compared with a reference merge of the dumped operands (merge_ref); consumed "
+            "sources are duplicates or freshly parsed trees that own the sorting trees of long system-ordered (leaf-)lists. "
+            "dupfamilies / mergefamilies run the same two judges over schema FAMILIES: a second module m3 defines equal local names "
+            "at the same level as m1 (augments into m1's containers, lists, choices / cases, rpc input; top-level nodes named like "
+            "m1's), a third module m2; the second context holds the same modules loaded in another order with another feature set; "
+            "dumps are module-qualified. dupfamilies biases the matrix to lyd_dup_single_to_ctx / lyd_dup_siblings_to_ctx (with / "
+            "without WITH_PARENTS / RECURSIVE, parent arguments of the other context incl. one named like an ancestor but of the "
+            "other module, which must be refused), duplicates half of the cross-context duplicates back (context 1 -> 2 -> 1) and "
+            "requires the whole forest to survive the round trip unchanged (dump, private pointers, lyd_compare_siblings); "
+            "mergefamilies merges, in the second context, a source duplicated from the first one.",
     "note": "PARTIAL. (1) Independence of a duplicate / of the merge source is a heap property (no shared mutable state): the value "
             "model cannot express it, Merge.dup is the identity; only the sanitizer-backed oracle looks at it. (2) The three "
             "_partial theorems do not speak about instances of duplicate-instance lists (key-less lists, config false leaf-lists): "
@@ -65,7 +75,12 @@ MANIFEST = {
             "(4) Not in Tree.v: LYD_NEW, opaque nodes, anydata, several modules, hashes / lyds trees (C04); merge on these is decided "
             "by mergekinds against a Python reference (which leaves the default mark of non-presence containers and the order inside "
             "system-ordered lists to mergemodel / the invariant checker). LYD_DUP_NO_EXT / extension data (schema mount) and "
-            "notifications are not exercised. Findings of these oracles, all fixed (known_findings.d/c14x.json: 328b4fe 2848a32 "
+            "notifications are not exercised; a TOP-LEVEL choice is not augmented with a case of another module (the data parsers "
+            "reject such a node: reported, C02) and opaque values with an unresolvable prefix are not generated (lyd_compare_single "
+            "is not reflexive for them: reported). anydata / anyxml nodes with a NULL value of every value type (string types "
+            "included) ARE generated (xanyset N) and duplicated / merged / dumped, but such a tree is never printed as LYB (the LYB "
+            "values are printed from copies taken before the edits), so the strlen(NULL) of lyb_print_node_any reported by the "
+            "difftree slice is not reachable from these oracles. Findings of these oracles, all fixed (known_findings.d/c14x.json: 328b4fe 2848a32 "
             "1e72cd5 aad6b04 c60598c); their witnesses are regression cases in corpus/dupmatrix.txt and corpus/mergekinds.txt.",
     "technique": "Coq proof about a transcribed functional model + differential correspondence on libyang dumps + metamorphic API "
                  "oracle under ASan",
